@@ -26,7 +26,7 @@ for cls in ("CartesianProductStrategy", "DisjointUnionStrategy"):
              params={"self": Obj(cls), "comb_class": CombClass}, returns=OptChildren,
              ensures=["result == decomp(self, comb_class)"])
 
-contract(F, "CartesianProductStrategy.shifts", props=["C10"],
+contract(F, "CartesianProductStrategy.shifts", props=["C10", "C02"],
          params={"self": Obj("CartesianProductStrategy"), "comb_class": CombClass, "children": OptChildren},
          returns=Seq(Int),
          raises=[("StrategyDoesNotApply", "is_none(children) and is_none(decomp(self, comb_class))")],
@@ -35,7 +35,7 @@ contract(F, "CartesianProductStrategy.shifts", props=["C10"],
                   f"sum(tuple(c.minimum_size_of_object() for c in {_EFF})) - {_EFF}[i].minimum_size_of_object()))"],
          notes="shift of child i = sum of the children's minimum sizes minus its own")
 
-contract(F, "DisjointUnionStrategy.shifts", props=["C10"],
+contract(F, "DisjointUnionStrategy.shifts", props=["C10", "C02"],
          params={"self": Obj("DisjointUnionStrategy"), "comb_class": CombClass, "children": OptChildren},
          returns=Seq(Int),
          raises=[("StrategyDoesNotApply", "is_none(children) and is_none(decomp(self, comb_class))")],
